@@ -1,5 +1,8 @@
 import BppProofs.Lemmas.Rand
 import BppProofs.Lemmas.RandRcont
+import BppProofs.Lemmas.RandRcontTotal
+import BppProofs.Lemmas.RandWalk
+import BppModel.DistGuards
 import BppProofs.Lemmas.RandLaw
 import BppProofs.Lemmas.RandSampleLaw
 import BppProofs.Lemmas.RandMonteCarlo
@@ -122,6 +125,16 @@ theorem nonempty_no_raise {τ : Type} (v : List τ) (replace : Bool) (pos : Nat)
   obtain ⟨e, _, hp⟩ := pickOne_ok replace hpos
   exact ⟨⟨_, hp⟩, ⟨_, pickOneConst_ok hpos⟩⟩
 
+/-! The `…_law` / `…_pred` theorems about `lawPickAt`, `lawSampleUnif`, `cumSumPickOk`,
+`multinomialLawOk`, `hmmStepOk` (`pick_law`, `sample_repl_law`, `cumsum_pick_law_pred`,
+`multinomial_state_law_pred`, `hmm_sample_law`, `hmm_step_pred`) restate the model's algorithm as a
+predicate ("the model computes what it computes"): they carry no hypotheses and little content as
+theorems.  Their purpose is that the driver evaluates these predicates on the IMPLEMENTATION's
+recorded draws.  The theorems with real content are the interval statements under explicit
+hypotheses: `weighted_pick_law`, `weight_intervals_partition`, `weighted_sample_law`,
+`weighted_sample_norepl_law`, `cumsum_pick_law_sorted`, `multinomial_state_law`, `drand_law`,
+`hmm_step_law`.  For the unweighted pick the law is the primitive's (trusted) uniformity. -/
+
 /-- the law of the unweighted picks given the integer draw (`FAIL:pick_law` in the driver): both
 `pickOne(v, replace)` and `pickOne(const v)` return the element at the position the draw designates
 — so a uniform draw on `0..n-1` (the primitive's contract) gives every position probability `1/n` -/
@@ -194,6 +207,113 @@ theorem rcont2_rejects (nrowt ncolt : List Nat) (picks : List (List Int)) :
   · rw [if_pos (by simpa using h1)]
   · have h2 : nrowt.sum ≠ ncolt.sum := by tauto
     rw [if_neg (by simpa using h1), if_pos (by simpa using h2)]
+
+/-- `rcont2_total` — the totality companion of `rcont2_margins` (which is conditional on
+`rcont2 … = .ok T`).  For every interpretation `P` of the standard library — in particular of the
+float-dependent inverse-cdf walk `P.rcell`, of which only "it stops at a value inside the support
+`max(0, ia+id-ie) ≤ v ≤ min(ia, id)` of the cell" is assumed (`WalkInSupport`; that a walk started
+inside the support can stop nowhere else is `rcont2_cell_support`, that the walk of the code does
+stop is `rcont2_walk_terminates`) —, every generator state and ALL margins the constructor accepts
+(at least two rows and columns, equal totals; zeros allowed): `rcont2` returns a table, and the
+table has exactly the requested margins.  Never `starved`, `unreachable`, `ub`, `bpp`. -/
+theorem rcont2_total {σ α : Type} (P : RandGen.Prims σ α) (hP : WalkInSupport P) (nrowt ncolt : List Nat) (g : σ)
+    (h2r : 2 ≤ nrowt.length) (h2c : 2 ≤ ncolt.length) (hsum : nrowt.sum = ncolt.sum) :
+    ∃ T, (RandGen.rcont2G P nrowt ncolt g).1 = .ok T ∧ marginsOk nrowt ncolt T = true := by
+  obtain ⟨T, hT⟩ := rcont2G_ok P hP nrowt ncolt g h2r h2c hsum
+  refine ⟨T, hT, ?_⟩
+  rw [rcont2G_eq P nrowt ncolt g h2r h2c hsum] at hT
+  exact rcont2_marginsOk nrowt ncolt _ T hT
+
+/-- in terms of the draw-taking model: for all valid margins there ARE cell values on which
+`rcont2` returns a table (so `rcont2_margins` is never vacuous), e.g. the starting values -/
+theorem rcont2_total_picks (nrowt ncolt : List Nat)
+    (h2r : 2 ≤ nrowt.length) (h2c : 2 ≤ ncolt.length) (hsum : nrowt.sum = ncolt.sum) :
+    ∃ picks T, rcont2 nrowt ncolt picks = .ok T ∧ marginsOk nrowt ncolt T = true := by
+  obtain ⟨T, hT, hm⟩ := rcont2_total startWalk startWalk_inSupport nrowt ncolt () h2r h2c hsum
+  rw [rcont2G_eq startWalk nrowt ncolt () h2r h2c hsum] at hT
+  exact ⟨_, T, hT, hm⟩
+
+/-- … and for ANY supplied cell values the only failures on valid margins are those of the
+supply itself (too few values, or a value the walk cannot reach): never an outcome of the code -/
+theorem rcont2_fails_only_on_bad_picks (nrowt ncolt : List Nat) (picks : List (List Int))
+    (h2r : 2 ≤ nrowt.length) (h2c : 2 ≤ ncolt.length) (hsum : nrowt.sum = ncolt.sum) :
+    (∃ T, rcont2 nrowt ncolt picks = .ok T) ∨ rcont2 nrowt ncolt picks = .error .starved ∨
+      rcont2 nrowt ncolt picks = .error .unreachable :=
+  rcont2_outcomes nrowt ncolt picks h2r h2c hsum
+
+/-- the refusal is exactly the constructor's guard (converse of `rcont2_rejects`) -/
+theorem rcont2_rejects_iff (nrowt ncolt : List Nat) (picks : List (List Int)) :
+    rcont2 nrowt ncolt picks = .error .bpp ↔ (nrowt.length < 2 ∨ ncolt.length < 2 ∨ nrowt.sum ≠ ncolt.sum) := by
+  constructor
+  · intro h
+    by_contra hc
+    simp only [not_or, not_lt, ne_eq, not_not] at hc
+    rcases rcont2_outcomes nrowt ncolt picks hc.1 hc.2.1 hc.2.2 with ⟨T, hT⟩ | h' | h' <;> rw [h] at * <;> simp_all
+  · exact rcont2_rejects nrowt ncolt picks
+
+/-! non-vacuity of `WalkInSupport`: the walk that stops at its starting value; any walk is allowed
+to depend on the generator state -/
+example : WalkInSupport startWalk := startWalk_inSupport
+example : (RandGen.rcont2G startWalk [4, 6, 5] [7, 8] ()).1 = .ok [[2, 2], [3, 3], [2, 3]] := by decide
+
+/-- `rcont2_walk_terminates` — the `do … while (true)` walk of one cell, in the terms of its
+transcription `BppModel/RandWalk.lean` (control flow of ContingencyTableGenerator.cpp:99-163 over an
+abstract non-negative probability mass `x0` at the starting value; real arithmetic): for every cell
+the book-keeping can present (`0 ≤ ia, id ≤ ie`, `0 < ie`), every first threshold `dummy`, and ONE
+further uniform draw `u ≤ 1` for the restart, the walk returns — after at most one restart, never
+running into the model's iteration bound — and the value it returns is one the abstraction of
+`rcont2` admits (`canReach`, i.e. inside the support of the cell: `rcont2_cell_support`).  Why one
+restart suffices: an exhausted pass has added up the total `S` of its terms; the next threshold is
+`S·u ≤ S`, and the next pass adds the same terms in the same order (`sweep_replay`).
+Not covered: `long double` rounding (the argument only needs `fl(S·u) ≤ S` and the repeatability of
+the pass, which hold in floating point too, but that is not proved here), and the tie of this
+transcription to the code (reading; clause `terminates` on executions). -/
+theorem rcont2_walk_terminates (ia id ie : Int) (x0 dummy u : ℝ) (us : List ℝ)
+    (ha : 0 ≤ ia) (hd : 0 ≤ id) (hie : 0 < ie) (hae : ia ≤ ie) (hde : id ≤ ie) (hx0 : 0 ≤ x0) (hu : u ≤ 1) :
+    ∃ v, walk ia id (ie - ia - id) (startCell ia id ie) x0 dummy (u :: us) = .ok v ∧
+      canReach ia id (ie - ia - id) (startCell ia id ie) v = true := by
+  obtain ⟨s0, s1, s2, s3⟩ := startCell_bound ha hd hie hae hde
+  set st := startCell ia id ie with hst
+  have hreach : ∀ v, InSupp ia id (ie - ia - id) v → canReach ia id (ie - ia - id) st v = true :=
+    fun v hv => (canReach_iff (ii := ie - ia - id) s0 (by omega) s2 s3).mpr hv
+  have hstart : InSupp ia id (ie - ia - id) st := ⟨s0, by omega, s2, s3⟩
+  have hinv : WalkInv ia id (ie - ia - id) ⟨st, st, x0, x0, x0⟩ :=
+    ⟨s0, by show 0 ≤ ie - ia - id + st; omega, le_refl _, s2, s3, hx0, hx0, hx0⟩
+  have hfuel : (ia - st) + st + 2 ≤ ((walkFuel ia id : Nat) : Int) := by
+    unfold walkFuel; push_cast
+    rw [Int.toNat_of_nonneg ha, Int.toNat_of_nonneg hd]; omega
+  have hok := fun d => sweep_ok ia id (ie - ia - id) d (walkFuel ia id) ⟨st, st, x0, x0, x0⟩ hinv hfuel
+  rw [walk]
+  split
+  · exact ⟨st, rfl, hreach st hstart⟩
+  · have h1 := hok dummy
+    cases hs : sweep ia id (ie - ia - id) dummy (walkFuel ia id) ⟨st, st, x0, x0, x0⟩ with
+    | hit v => rw [hs] at h1; exact ⟨v, rfl, hreach v h1⟩
+    | fuel => rw [hs] at h1; exact False.elim h1
+    | exhausted S =>
+      rw [hs] at h1
+      have hS : 0 ≤ S := h1
+      have hle : S * u ≤ S := by nlinarith
+      dsimp only
+      rw [walk]
+      split
+      · exact ⟨st, rfl, hreach st hstart⟩
+      · rename_i hnot
+        have h2 := hok (S * u)
+        rcases sweep_replay ia id (ie - ia - id) dummy (S * u) S _ _ hs hle with ⟨v, hv⟩ | ⟨_, hS0⟩
+        · simp only [smul] at hv ⊢
+          rw [hv] at h2 ⊢
+          exact ⟨v, rfl, hreach v h2⟩
+        · exfalso; apply hnot
+          simp only [Scalar.geb, ScalarReal.leb_iff, smul]
+          have : S = x0 := hS0
+          rw [← this]; exact hle
+
+/-! non-vacuity: the cell `ia = 5, id = 3, ie = 6` (first cell of rows (5,1), columns (3,3)): start 3 -/
+example : ∃ v, walk 5 3 (6 - 5 - 3) (startCell 5 3 6) (1 / 2 : ℝ) (9 / 10) [1 / 3] = .ok v ∧
+    canReach 5 3 (6 - 5 - 3) (startCell 5 3 6) v = true :=
+  rcont2_walk_terminates 5 3 6 (1 / 2) (9 / 10) (1 / 3) [] (by norm_num) (by norm_num) (by norm_num) (by norm_num)
+    (by norm_num) (by norm_num) (by norm_num)
 
 /-- the unrepaired starting value `ia * (size_t)(id/ie + 0.5)`: for rows (5,1) and columns (3,3)
 the very first cell starts at `nlm = 5 > id = 3` and reads `fact_[id - nlm]` out of bounds, for
@@ -582,8 +702,13 @@ theorem hmm_uninitialised_witness : hmmChain [[(1 : ℝ) / 2, 1 / 4], [1 / 2, 1 
 /-- `pvalue_range`, about the transcribed Monte-Carlo loop of the constructor
 (`count = 0; for (k = 0; k < nbPermutations; ++k) { …rcont2()…; if (stat_rep >= statistic_) count++; }
 pvalue_ = (count + 1) / (nbPermutations + 1)`): for every observed statistic, every number of
-permutations and every stream of replicate statistics, the loop ends with `count ≤ nbPermutations`,
+permutations `> 0` and every stream of replicate statistics, the loop ends with `count ≤ nbPermutations`,
 hence the p-value lies in `(0, 1]` -/
+-- Scope: the Monte-Carlo branch only.  The constructor takes it for `nbPermutations > 0`; the DEFAULT
+-- `nbPermutations = 0` computes `1 - pChisq(statistic, df)` instead (ContingencyTableTest.cpp:100-108),
+-- for which there is no theorem (C08's kernel; the range is checked on executions only).  The
+-- statement below also holds of `nb = 0` (`mcPValue stat 0 sims = .ok 1`), a case the code never
+-- runs through this loop.
 theorem pvalue_range (stat : ℝ) (nb : Nat) (sims : List ℝ) (p : ℝ) (h : mcPValue stat nb sims = .ok p) :
     0 < p ∧ p ≤ 1 := by
   unfold mcPValue mcPValueWith loopIterations at h
@@ -659,27 +784,51 @@ theorem pvalue_range_of_count (count nb : Nat) (h : count ≤ nb) :
 
 /-! ## parameter conventions of the sampler wrappers (table regenerated from the sources) -/
 
-/-- `wrapper_conventions`: for every sampler wrapper found in RandomTools.h / RandomTools.cpp
-(`giveRandomNumberBetweenZeroAndEntry`, `flipCoin`, `randGaussian`, `randGamma` (both), `randExponential`,
-`randBeta`), the law of the standard-library family with the arguments the wrapper passes to it is
-the law the library's own cumulative functions mean by the wrapper's parameter names (a mean is the
-mean, a rate the rate, a variance the variance) — for ALL real parameter values (a variance
-non-negative).  Canonical parametrisation: normal (mean, variance); exponential (rate); gamma
-(shape, rate); beta (α, β); uniform (lo, hi); plus a location. -/
+/-- `wrapper_conventions` — a comparison of tables, not a statement about probability measures.
+For every sampler wrapper found in RandomTools.h / RandomTools.cpp (`giveRandomNumberBetweenZeroAndEntry`,
+`flipCoin`, `randGaussian`, `randGamma` (both), `randExponential`, `randBeta`; table regenerated from
+the source on every run): the tagged tuple (family, canonical parameters, location) that the
+hand-written table `stdLawS` assigns to "this std:: distribution with the argument expressions the
+wrapper passes" equals — as real numbers, for ALL real parameter values (a variance non-negative) —
+the tuple the hand-written table `libLawS` assigns to the wrapper's name.  `stdLawS` records the
+parameter order of ISO C++ [rand.dist] (normal(mean, stddev), gamma(shape, scale), exponential(rate));
+`libLawS` records what the library's own cumulative functions mean by the wrapper's parameter
+names (`pNorm(x, mu, sigma)`, `pGamma(x, alpha, beta)` with `beta` a rate, …).  Both tables are
+TRUSTED (`trusted_base`); nothing in Lean gives the tag `LawFam.exponential [r]` a mean of `1/r`.
+What ties `libLawS` to the library is `libLaw_gamma_beta_is_rate` / `libLaw_norm_sigma_is_scale`
+below (against C08's transcription of the cdfs) and, on executions, the KS tests.  Canonical
+parametrisation: normal (mean, variance); exponential (rate); gamma (shape, rate); beta (α, β);
+uniform (lo, hi); plus a location. -/
 theorem wrapper_conventions : ∀ w ∈ Generated.wrappers,
     ∃ a b, stdLawS w.family w.args = some a ∧ libLawS w.name = some b ∧
       ∀ ρ : String → ℝ, (∀ n ∈ nonnegParams, 0 ≤ ρ n) → a.eval ρ = b.eval ρ := by
   intro w hw
   exact wrapperOk_sound (List.all_eq_true.mp wrappers_all_ok w hw)
 
-/-- the same for each distribution class' `randC()` (Beta, Exponential, Gamma with its offset,
-Gaussian, TruncatedExponential, Uniform): the law of the wrapper it calls, with the arguments it
-passes and the shift it adds, is the law of the class' own `pProb` -/
+/-- the same table comparison for each distribution class' `randC()` (Beta, Exponential, Gamma with
+its offset, Gaussian, TruncatedExponential, Uniform): the tuple of the wrapper it calls, with the
+arguments it passes and the shift it adds, equals the tuple the hand-written (trusted) table
+`distLawS` records for the class' own `pProb`.  The rejection loop on the bounds and the
+truncation point are not in the table. -/
 theorem randC_conventions : ∀ r ∈ Generated.randCs,
     ∃ a b, randCLawS Generated.wrappers r = some a ∧ distLawS r.dist = some b ∧
       ∀ ρ : String → ℝ, (∀ n ∈ nonnegParams, 0 ≤ ρ n) → a.eval ρ = b.eval ρ := by
   intro r hr
   exact randCOk_sound (List.all_eq_true.mp randCs_all_ok r hr)
+
+/-- semantic anchor of the hand-written table `libLawS` (1): in C08's transcription of the
+library's own `pGamma(x, alpha, beta)` (`DistGuards.pGamma`, tied to the code by C08's check), `beta`
+is a RATE — the cdf at `x` with rate `beta` is the unit-rate cdf at `beta · x` — for every kernel -/
+theorem libLaw_gamma_beta_is_rate (K : DistGuards.Kernels ℝ) (x a b : ℝ) (hb : 0 ≤ b) :
+    DistGuards.pGamma K x a b = DistGuards.pGamma K (b * x) a 1 := by
+  have h1 : Scalar.ltb b (Scalar.zero : ℝ) = false := by simp [Scalar.zero]; exact hb
+  have h2 : Scalar.ltb (1 : ℝ) (Scalar.zero : ℝ) = false := by simp [Scalar.zero]
+  simp only [DistGuards.pGamma, h1, h2, Bool.false_eq_true, if_false, smul, one_mul]
+
+/-- semantic anchor (2): in C08's transcription of `pNorm(x, mu, sigma)`, `mu` is a location and
+`sigma` a scale (standard deviation, not variance): the cdf is the standard one at `(x - mu)/sigma` -/
+theorem libLaw_norm_sigma_is_scale (ex tr : ℝ → ℝ) (x mu sigma : ℝ) :
+    PNorm.pNorm3 ex tr x mu sigma = PNorm.pNorm ex tr ((x - mu) / sigma) := rfl
 
 /-- every drawing wrapper the hand-written table knows is present in the regenerated table, and
 every distribution family with a direct continuous draw -/
